@@ -1677,11 +1677,78 @@ func c17FreshSharedCache(c *Ctx) {
 	c.Res.Dist["fresh-shared-cache-rounds"] = rounds
 }
 
+// c17SharedCacheIDs: goroutines that share ONE cache, each expanding a schema of its own whose sub-schemas declare
+// absolute ids (served by no loader) and are referred to by these ids further on: what one call registers in the
+// shared cache is still there when that call looks it up, whatever the others store meanwhile.
+func c17SharedCacheIDs(c *Ctx) {
+	loader := func(u string) (json.RawMessage, error) { return nil, fmt.Errorf("no such document: %s", u) }
+	mk := func(g, r int) *spec.Schema {
+		var parts []string
+		for k := 0; k < 6; k++ {
+			parts = append(parts, fmt.Sprintf(`{"id":"http://c17.example/g%d/r%d/leaf%d.json","type":"string","description":"leaf %d of %d"}`, g, r, k, k, g))
+		}
+		for k := 0; k < 6; k++ {
+			parts = append(parts, fmt.Sprintf(`{"$ref":"http://c17.example/g%d/r%d/leaf%d.json"}`, g, r, k))
+		}
+		var sch spec.Schema
+		_ = json.Unmarshal([]byte(`{"allOf":[`+strings.Join(parts, ",")+`]}`), &sch)
+		return &sch
+	}
+	expand := func(g, r int, cache spec.ResolutionCache) string {
+		sch := mk(g, r)
+		if err := spec.ExpandSchemaWithBasePath(sch, cache, &spec.ExpandOptions{RelativeBase: fmt.Sprintf("http://c17.example/g%d/root.json", g), PathLoader: loader}); err != nil {
+			return "error: " + err.Error()
+		}
+		return jsonOf(sch)
+	}
+	defer runtime.GOMAXPROCS(runtime.GOMAXPROCS(0))
+	rounds := c.N(150, 3000)
+	for r := 0; r < rounds; r++ {
+		runtime.GOMAXPROCS([]int{2, 4, 8, 16}[r%4])
+		n := []int{4, 8, 16}[r%3]
+		cache := spec.VerifDefaultCache()
+		outs := make([]string, n)
+		var ready, wg sync.WaitGroup
+		start := make(chan struct{})
+		ready.Add(n)
+		for i := 0; i < n; i++ {
+			wg.Add(1)
+			go func(i int) {
+				defer wg.Done()
+				ready.Done()
+				<-start
+				outs[i] = expand(i, r, cache)
+			}(i)
+		}
+		ready.Wait()
+		close(start)
+		done := make(chan struct{})
+		go func() { wg.Wait(); close(done) }()
+		cs := map[string]interface{}{"scenario": "goroutine g expands {allOf:[6 sub-schemas with ids http://c17.example/g<g>/r<round>/leaf<k>.json, then a $ref to each of these ids]} through ExpandSchemaWithBasePath on ONE shared default-type cache; the loader serves nothing", "goroutines": n, "round": r}
+		select {
+		case <-done:
+		case <-time.After(20 * time.Second):
+			c.Fail(Failure{Kind: "crash", Sig: "C17:deadlock", What: fmt.Sprintf("round %d: %d goroutines sharing one cache did not all return within 20 s", r, n), Case: cs})
+			return
+		}
+		for i, o := range outs {
+			if alone := expand(i, r, spec.VerifDefaultCache()); o != alone {
+				c.Fail(Failure{Kind: "oracle", Sig: "C17:concurrent-result-differs", What: "a call sharing a cache with concurrent calls differs from its result alone: " + clip(o) + " (alone: " + clip(alone) + ")", Case: cs})
+				break
+			}
+		}
+	}
+	c.Count("shared-cache-ids-rounds", true)
+	c.Hit("scenario:shared-cache-ids")
+	c.Res.Dist["shared-cache-ids-rounds"] = rounds
+}
+
 func runC17(c *Ctx) {
 	c.Res.Rule = "N in {2,4,8,16} goroutines under GOMAXPROCS in {1,2,4,16}, binary built with -race: (A) concurrent ExpandSpec of distinct worlds without a cache, (B) concurrent ExpandSchemaWithBasePath of the definitions of one world sharing one instrumented cache, (C) concurrent json.Marshal and JSON-pointer lookups on one shared decoded document; oracle: every call returns what it returns alone (by meaning for cyclic graphs), no deadlock (watchdog), no race report; the global trace of (B) is checked by the model's multi-thread validator and replayed through the model's scheduler under the observed schedule; non-trivial = scenario with at least two goroutines touching a common document; distinct by scenario text"
 	c17FreshSharedCache(c)
 	c17DeepChains(c)
 	c17UnusableIDs(c)
+	c17SharedCacheIDs(c)
 	rounds := c.N(10, 120)
 	procs := []int{1, 2, 4, 16}
 	ns := []int{2, 4, 8, 16}
